@@ -32,10 +32,7 @@ type c09Input struct {
 }
 
 func (in c09Input) eval() string {
-	p, err := bkl.New()
-	if err != nil {
-		return "ERR new"
-	}
+	p := newParser()
 	var prev []*bkl.Document
 	layers := in.Layers
 	if in.YAML != "" {
